@@ -269,7 +269,7 @@ Example C12_ex_agree :
                        {| g_id := id; g_at := None; g_found := true; g_parts := fst r;
                           g_del := match fst r with [] => snd r | _ => false end |}) [1; 2; 3] in
   let robs_of st := {| ro_full := m_full (get_ds st 1); ro_latest := m_latest (get_ds st 1); ro_listing := m_listing (get_ds st 1);
-                       ro_gets := gets st; ro_rels := []; ro_bad := false |} in
+                       ro_gets := gets st; ro_rels := []; ro_merged := []; ro_bad := false |} in
   let st' := cr_store (compact_store v_fixed st_nnn 1 1 1 true None [1; 2]) in
   snd (fst (agree_op v_fixed false st_nnn (CCompact 1 1 1 true None [1; 2] 1 true false 0 (robs_of st_nnn) (robs_of st')))) = true
   /\ length (ro_full (robs_of st')) = 4%nat.
